@@ -159,6 +159,9 @@ def oracle(nil, reserved):
     return None
 
 
+SELF_EXTEND_FAILED = []
+
+
 def run_impl(alpha, ops, reserved):
     from odxtools.nameditemlist import NamedItemList
     objs = [It(n, p) for (_, n, p) in alpha]
@@ -241,11 +244,12 @@ def run_impl(alpha, ops, reserved):
                 bad = (step, f"the other list of the {how} changed or became inconsistent "
                              f"({oracle(w, reserved) or 'content differs'}) although only its counterpart was operated on")
     # finally: the list extended by itself -- terminates, holds every item twice (in order), and stays consistent
-    if bad is None and len(ops) % 3 == 0:
+    if bad is None and len(ops) % 3 == 0 and not SELF_EXTEND_FAILED:
         import codec_common as cc
         before = list(nil)
         _, e, _ = cc.guarded(lambda: nil.extend(nil), timeout=5)
         if e is not None:
+            SELF_EXTEND_FAILED.append(True)  # (one replay suffices; every further attempt would cost the time limit again)
             bad = (len(ops) - 1, f"extend(self) after the history {'does not terminate' if isinstance(e, cc.Hang) else 'raised ' + type(e).__name__}")
         elif len(nil) != 2 * len(before) or any(a is not b for a, b in zip(list(nil), before + before)):
             bad = (len(ops) - 1, f"extend(self) after the history: the list holds {len(nil)} items, twice the {len(before)} items were expected")
